@@ -45,6 +45,15 @@ func c08Gen(rng *rand.Rand, idx int) c08Scenario {
 			r.Body = 10
 		}
 		r.At = 500*time.Millisecond + time.Duration(rng.Int64N(int64(horizon/(10*time.Millisecond))))*10*time.Millisecond + OffArrival
+		if rng.IntN(5) == 0 {
+			// placed: passes the gate just before a command and claims a target just after it, while a
+			// slower request already in flight keeps that command's drain open
+			c := pick(rng, sc.Cmds)
+			r.Method, r.Path, r.Body = "GET", "/x", 0
+			r.At = c.At - time.Duration(1+rng.IntN(5))*time.Millisecond + OffArrival
+			r.D2 = time.Duration(1+rng.IntN(12))*time.Millisecond + OffHook
+			sc.Reqs = append(sc.Reqs, tlReq{ID: fmt.Sprintf("s%d", i), Method: "GET", Path: "/slow", At: r.At - 7*time.Millisecond, Lat: time.Duration(20+rng.IntN(50))*time.Millisecond + OffTarget})
+		}
 		sc.Reqs = append(sc.Reqs, r)
 	}
 	return sc
@@ -169,7 +178,10 @@ func c08Run(t *testing.T, run *Run, sc c08Scenario) {
 		})
 	}
 	for _, r := range sc.Reqs {
-		req := Req{ID: r.ID, Method: r.Method, Host: "c08.example", Path: r.Path, Body: tlBody(r.ID, r.Body)}
+		req := Req{ID: r.ID, Method: r.Method, Host: "c08.example", Path: r.Path, Body: tlBody(r.ID, r.Body), Lat: r.Lat}
+		if r.D2 > 0 {
+			w.SetReqDelay(r.ID, "service.gate.passed", r.D2)
+		}
 		if r.Cookie {
 			req.Hdr = [][2]string{{"Cookie", "kamal-rollout=u1"}}
 		}
@@ -202,11 +214,19 @@ func c08Run(t *testing.T, run *Run, sc c08Scenario) {
 		got := resps[r.ID]
 		st := tlStateAt(sc.Cmds, r.At, false)
 		cands, tie := tlExpect(sc.Cmds, r, "/up")
+		if r.D2 > 0 {
+			later := r
+			later.At = r.At + r.D2 + Step
+			c2, tie2 := tlExpect(sc.Cmds, later, "/up")
+			cands, tie = append(cands, c2...), tie || tie2
+			run.Count("placed_checked", 1)
+		}
 		if tie {
 			run.Count("ties_skipped", 1)
 			continue
 		}
 		ok := false
+		pageProblem := ""
 		var why []string
 		for _, e := range cands {
 			why = append(why, fmt.Sprintf("%s@%v", e.Kind, e.At))
@@ -231,23 +251,28 @@ func c08Run(t *testing.T, run *Run, sc c08Scenario) {
 				ok = ok || (got.Status == 200 && got.Target == "" && near(got.Done, e.At))
 			case "503":
 				if got.Status == 503 && got.Target == "" && near(got.Done, e.At) {
-					ok = true
 					if atTarget[r.ID] {
 						fail("forwarded-while-stopped", "request %s was answered 503 but also reached a target", r.ID)
 						return
 					}
 					if r.Method != "HEAD" {
+						// the page must carry the message in force for this candidate arrival instant
 						if problem := c08CheckBody(string(got.Body), e.Msg, sc.Pages); problem != "" {
-							fail("stop-page:"+sc.Pages, "request %s (service stopped with message %q, pages=%q): %s", r.ID, trunc(e.Msg, 60), sc.Pages, problem)
-							return
+							pageProblem = fmt.Sprintf("service stopped with message %q, pages=%q: %s", trunc(e.Msg, 60), sc.Pages, problem)
+							continue
 						}
 						msgs[trunc(e.Msg, 12)] = true
 					}
+					ok = true
 					if st.State == "stopped" {
 						stoppedSeen++
 					}
 				}
 			}
+		}
+		if !ok && pageProblem != "" {
+			fail("stop-page:"+sc.Pages, "request %s: %s", r.ID, pageProblem)
+			return
 		}
 		if !ok {
 			sig := fmt.Sprintf("outcome:%s:%s:want-%s:got-%d", st.State, r.Method, cands[0].Kind, got.Status)
